@@ -130,6 +130,7 @@ class Engine(TorchDispatchMode):
         self.opts = dict(opts or {})
         self.store = {}  # storage cdata -> (storage, flat object array)
         self.rng_calls = []   # (op, generator argument) of every random op executed on this path
+        self.witnesses = []   # (label, condition) reachability witnesses of this path
         self.solver = z3.Solver()
         self.qtimeout = int(self.opts.get("query_timeout_ms", 60000))
         self.solver.set("timeout", self.qtimeout)
@@ -441,6 +442,11 @@ class Engine(TorchDispatchMode):
         s = dict(self.sig)
         s.update(sig)
         self.obligations.append(Obligation(label, T.tob(cond), s))
+
+    def witness(self, label, cond):
+        """Reachability witness (vacuity guard): the situation `cond` must be satisfiable on at least one explored path of the
+        configuration, otherwise the configuration's obligations say nothing about it and the run is inconclusive."""
+        self.witnesses.append((label, T.tob(cond)))
 
     def all_same(self, got, expected):
         """Boolean element: two element arrays are element-wise equal (NaN == NaN)."""
